@@ -389,13 +389,17 @@ func H_C20_kmeans_box() {
 	case 3:
 		vecs = [][]float32{{a}, {a}, {b}, {b}}
 	}
-	k := 2 + vChoose("k", 2)
+	k := 2
+	if len(vecs) > 2 {
+		k = 2 + vChoose("k", 2)
+	}
 	cents, assign := KMeans(vecs, k, dist, 2)
 	want := k
 	if len(vecs) < k {
 		want = len(vecs)
 	}
 	vAssert(len(cents) == want && len(assign) == len(vecs), "kmeans-shape")
+	inside := true // one obligation per path: every coordinate of every centroid
 	for _, c := range cents {
 		for d := range c {
 			lo, hi := vecs[0][d], vecs[0][d]
@@ -403,8 +407,9 @@ func H_C20_kmeans_box() {
 				lo = vIteF32(v[d] < lo, v[d], lo)
 				hi = vIteF32(v[d] > hi, v[d], hi)
 			}
-			vAssert(vAnd(c[d] >= lo, c[d] <= hi), "centroid-inside-the-bounding-box-of-the-training-vectors")
+			inside = vAnd(inside, vAnd(c[d] >= lo, c[d] <= hi))
 		}
 	}
+	vAssert(inside, "centroid-inside-the-bounding-box-of-the-training-vectors")
 	vCover("ran")
 }
